@@ -515,6 +515,7 @@ fn exec_inner(ctx: &Arc<Ctx>, op: &OpSpec, slots: &mut Slots) -> i64 {
             0
         }
         "despawn" => { scheduler().despawn_threads_if_overloaded(); 0 }
+        "spawn_thread" => { scheduler().spawn_thread(); 0 }
         "nop"     => 0,
 
         other => panic!("unknown op kind {}", other)
